@@ -4,6 +4,7 @@ CONSTANTS
   PNames = {"value", "target", "x"}
   ExtraM = {"zz"}
   ExtraP = {}
+  CmdP = {}
   Wires = {"w1", "wbad"}
   ValidW = {"w1"}
   ENames = {"HardwareError", "Bogus"}
